@@ -515,6 +515,20 @@ func (ss *SpecSet) parseFile(file, pkg, src string) error {
 			if strings.HasPrefix(r, "[") {
 				cl := strings.Index(r, "]")
 				label = r[1:cl]
+				if at := strings.Index(label, "@"); at >= 0 {
+					// [name@C04+C16]: the step clause serves these properties
+					tags := label[at+1:]
+					label = label[:at]
+					if curF.ClauseProps == nil {
+						curF.ClauseProps = map[string][]string{}
+					}
+					for _, pp := range strings.Split(tags, "+") {
+						curF.ClauseProps[label] = append(curF.ClauseProps[label], pp)
+						if !hasProp(curF.Props, pp) {
+							curF.Props = append(append([]string(nil), curF.Props...), pp)
+						}
+					}
+				}
 				r = strings.TrimSpace(r[cl+1:])
 			}
 			r = strings.TrimPrefix(r, ":")
